@@ -56,7 +56,11 @@ impl<'a> Model<'a> {
 
     fn evaluate(&mut self) {
         if let Some(tl) = &self.stint[self.cur] {
-            tl.update(&mut self.values, self.tau.as_secs_f64() as f32);
+            // "the timeline evaluated at the time spent in the state" - and, once that time has
+            // reached the timeline's total duration, its terminal values (C07): the end of time
+            let s = self.tau.as_secs_f64() as f32;
+            let t = if s >= tl.duration() { f32::MAX } else { s };
+            tl.update(&mut self.values, t);
         }
     }
 
